@@ -194,7 +194,7 @@ def run_case(i, rng, rec, tier, state):
     elif which == "Polyhedron":
         c = gen.mesh_case(rng, kinds=("voxel", "voxel", "extrusion", "perturbed"), aligned_frac=0.4)
         V, faces = c["V"], c["faces"]
-        s = cs.Polyhedron(V.copy(), [list(f) for f in faces], faces_are_convex=True)
+        s = cs.Polyhedron(V.copy(), gen.index_form(rng, faces, len(V))[1], faces_are_convex=True)
         if aged:
             info["history"], _sib = aging.age_or_sibling(s, rng, allow=("size", "move", "rigid"))
             V = np.array(s.vertices, float)
